@@ -175,6 +175,13 @@ def grammar(tier):
                 for s in field:
                     for f in fr:
                         yield "sexa3" + ("" if len(m) == 2 and len(s) == 2 else "-1digit"), w + sep + m + sep + s + f
+    # a decimal fraction in a field that is not the last one (libindi scans every field as a floating-point number)
+    for sep in ":; ":
+        for a in ("12.5", "1.25", ".5", "12.", "0.5"):
+            yield "sexa2-decimal-first-field", a + sep + "30"
+            yield "sexa3-decimal-first-field", a + sep + "0" + sep + "36"
+        for b in ("30.5", ".5", "7."):
+            yield "sexa3-decimal-middle-field", "10" + sep + b + sep + "30"
     # exponent notation (what %e / %g render): not in the property's list of peer syntaxes, so the validator may
     # refuse it - but a text it accepts must parse to the value it denotes
     for mnt in ("1", "5", "1.5", ".5", "1.", "9.99", "0", "10"):
